@@ -152,6 +152,8 @@ def write_replay(path, body, env=None, timeout=900):
         return True, out
     if rc == 0:
         return False, out
+    if rc in (-11, -6, -7, 139, 134):
+        return True, f'the replay process was killed by signal {abs(rc) if rc < 0 else rc - 128} while running the real compiled code (memory corruption)\n' + out
     return None, f'replay script exit {rc}: {out}'
 
 
